@@ -278,10 +278,16 @@ impl S2 {
                 _ => return None,
             })
         }));
-        attrs::FAULT.with(|f| f.set(0));
         match r {
-            Err(_) => Some("panic".into()),
-            Ok(x) => x,
+            Err(_) => {
+                attrs::FAULT.with(|f| f.set(0));
+                Some("panic".into())
+            }
+            Ok(Some(x)) => {
+                attrs::FAULT.with(|f| f.set(0));
+                Some(x)
+            }
+            Ok(None) => None,
         }
     }
 
@@ -332,7 +338,7 @@ impl S2 {
         for x in 0..n {
             for i in 0..3u8 {
                 if b(i, x) >= n {
-                    return "wf false false true".into();
+                    return "wf false true true".into();
                 }
             }
         }
